@@ -166,6 +166,210 @@ def _class_entry(cls, fname):
     return cls.name, kind, validators
 
 
+# the array helpers of config/utils.py the classification of array stores relies on (fail closed when they change)
+_EXPECTED_UTILS = '''
+def normalize(array: NDArray[np.float64]) -> NDArray[np.float64]:
+    if array.sum() < np.finfo(np.float64).eps:
+        msg = "the sum of weights is not positive"
+        raise ValueError(msg)
+    return immutable_array(array / array.sum())
+
+
+def immutable_array(
+    array_like: ArrayLike,
+    **kwargs: Any,
+) -> NDArray[Any]:
+    array = np.array(array_like, **kwargs)
+    array.setflags(write=False)
+    return array
+
+
+def broadcast_arrays(*args: Any) -> tuple[NDArray[Any], ...]:
+    results = np.broadcast_arrays(*args)
+    return tuple(immutable_array(result) for result in results)
+
+
+def broadcast_1d_array(array: NDArray[Any], name: str, size: int) -> NDArray[Any]:
+    if size == 0:
+        return immutable_array([], dtype=array.dtype)
+    try:
+        return np.broadcast_to(immutable_array(array), (size,))
+    except ValueError as err:
+        msg = f"{name} cannot be broadcasted to a length of {size}"
+        raise ValueError(msg) from err
+'''
+
+_DIRECT_SOURCES = {"immutable_array": "SImmutableArray", "normalize": "SNormalize", "broadcast_1d_array": "SBroadcast1d"}
+
+
+def _is_call_to(node, name):
+    return isinstance(node, ast.Call) and isinstance(node.func, ast.Name) and node.func.id == name
+
+
+def _self_attr(node):
+    if isinstance(node, ast.Attribute) and isinstance(node.value, ast.Name) and node.value.id == "self":
+        return node.attr
+    return None
+
+
+def _classify(expr, fn, array_fields, seen=()):
+    """Sources (list of asrc constructor names) of the array an expression evaluates to inside function fn."""
+    for name, src in _DIRECT_SOURCES.items():
+        if _is_call_to(expr, name):
+            return [src]
+    if isinstance(expr, ast.Call) and isinstance(expr.func, ast.Attribute) and expr.func.attr == "broadcast_to" \
+            and isinstance(expr.func.value, ast.Name) and expr.func.value.id == "np" and expr.args \
+            and _is_call_to(expr.args[0], "immutable_array"):
+        return ["SBroadcastToImmutable"]
+    if _self_attr(expr) in array_fields:
+        return ["SField"]
+    if isinstance(expr, ast.Name):
+        if expr.id in seen:
+            return []
+        out, bound = [], False
+        for n in ast.walk(fn):
+            if isinstance(n, ast.Assign):
+                for t in n.targets:
+                    if isinstance(t, ast.Name) and t.id == expr.id:
+                        bound = True
+                        out += _classify(n.value, fn, array_fields, seen + (expr.id,))
+                    elif isinstance(t, (ast.Tuple, ast.List)) and any(isinstance(e, ast.Name) and e.id == expr.id for e in ast.walk(t)):
+                        bound = True
+                        v = n.value
+                        out.append("SBroadcastArrays" if _is_call_to(v, "broadcast_arrays") else "SOther")
+                    elif isinstance(t, ast.Subscript) and isinstance(t.value, ast.Name) and t.value.id == expr.id:
+                        out.append("SOther")          # written in place: a writable array
+            elif isinstance(n, (ast.AugAssign, ast.AnnAssign, ast.NamedExpr)) and isinstance(n.target, ast.Name) and n.target.id == expr.id:
+                bound = True
+                out.append("SOther")
+            elif isinstance(n, (ast.For, ast.comprehension)) and any(isinstance(e, ast.Name) and e.id == expr.id for e in ast.walk(n.target)):
+                bound = True
+                out.append("SOther")
+        if not bound:
+            out.append("SOther")                      # an argument or a global
+        return out
+    return ["SOther"]
+
+
+def _array_stores(cls, array_fields):
+    """(site, field, sources) of every store into an array field of the class, fail closed on unknown store forms."""
+    from translator import TranslatorError
+    stores = []
+    for fn in cls.body:
+        if not isinstance(fn, ast.FunctionDef):
+            continue
+        where = f"{cls.name}.{fn.name}"
+        construct_names = set()
+        for n in ast.walk(fn):
+            if isinstance(n, ast.Call) and isinstance(n.func, ast.Name) and n.func.id in ("setattr", "vars"):
+                raise TranslatorError(f"{where}: setattr()/vars() in a configuration class")
+            if isinstance(n, ast.Attribute) and n.attr in ("__dict__", "__setattr__", "__pydantic_private__") and fn.name != "__setattr__":
+                raise TranslatorError(f"{where}: {n.attr} used in a configuration class")
+            if isinstance(n, (ast.Assign, ast.AugAssign, ast.AnnAssign)):
+                targets = n.targets if isinstance(n, ast.Assign) else [n.target]
+                for t in targets:
+                    for e in ([t] if not isinstance(t, (ast.Tuple, ast.List)) else ast.walk(t)):
+                        f = _self_attr(e)
+                        if f in array_fields:
+                            if isinstance(n, ast.Assign) and e is t and len(targets) == 1:
+                                stores.append((fn.name, f, _classify(n.value, fn, array_fields)))
+                            else:
+                                stores.append((fn.name, f, ["SOther"]))
+                        g = _self_attr(e.value) if isinstance(e, ast.Subscript) else None
+                        if g in array_fields:
+                            stores.append((fn.name, g, ["SOther"]))     # self.field[...] = ...: needs a writable array
+            if isinstance(n, ast.Call) and isinstance(n.func, ast.Attribute) and n.func.attr == "model_copy":
+                upd = [k for k in n.keywords if k.arg == "update"]
+                if n.args or len(upd) != len(n.keywords) or len(upd) > 1:
+                    raise TranslatorError(f"{where}: model_copy with unexpected arguments")
+                if upd:
+                    d = upd[0].value
+                    if not isinstance(d, ast.Dict) or not all(isinstance(k, ast.Constant) and isinstance(k.value, str) for k in d.keys):
+                        raise TranslatorError(f"{where}: model_copy(update=...) is not a dict display with literal keys")
+                    for k, v in zip(d.keys, d.values):
+                        if k.value in array_fields:
+                            stores.append((fn.name, k.value, _classify(v, fn, array_fields)))
+            if isinstance(n, ast.Call) and isinstance(n.func, ast.Attribute) and n.func.attr == "model_construct":
+                if n.args or len(n.keywords) != 1 or n.keywords[0].arg is not None or not isinstance(n.keywords[0].value, ast.Name):
+                    raise TranslatorError(f"{where}: model_construct is not called as model_construct(**name)")
+                construct_names.add(n.keywords[0].value.id)
+        for name in construct_names:
+            # name = self.model_dump(round_trip=True); name.update(field=expr, ...); nothing else may touch it
+            for n in ast.walk(fn):
+                if isinstance(n, ast.Assign) and any(isinstance(t, ast.Name) and t.id == name for t in n.targets):
+                    v = n.value
+                    if not (isinstance(v, ast.Call) and isinstance(v.func, ast.Attribute) and v.func.attr == "model_dump"
+                            and _self_attr(v.func) == "model_dump"):
+                        raise TranslatorError(f"{where}: {name} is not built from self.model_dump(...)")
+                elif isinstance(n, ast.Subscript) and isinstance(n.value, ast.Name) and n.value.id == name and isinstance(n.ctx, ast.Store):
+                    raise TranslatorError(f"{where}: {name}[...] = ... before model_construct")
+                elif isinstance(n, ast.Call) and isinstance(n.func, ast.Attribute) and isinstance(n.func.value, ast.Name) \
+                        and n.func.value.id == name:
+                    if n.func.attr != "update" or n.args or any(k.arg is None for k in n.keywords):
+                        raise TranslatorError(f"{where}: unsupported call {name}.{n.func.attr}(...) before model_construct")
+                    for k in n.keywords:
+                        if k.arg in array_fields:
+                            stores.append((fn.name, k.arg, _classify(k.value, fn, array_fields)))
+    return stores
+
+
+def _array_tables(tr):
+    """array_converters (validated_types.py aliases), per-class array fields and array stores."""
+    from translator import TranslatorError
+    utils = tr.parse("config/utils.py")
+    want = {n.name: ast.dump(_strip_docstrings(n)) for n in ast.parse(_EXPECTED_UTILS).body}
+    for n in utils.body:
+        if isinstance(n, ast.FunctionDef) and n.name in want:
+            if ast.dump(_strip_docstrings(n)) != want.pop(n.name):
+                raise TranslatorError(f"config/utils.py: {n.name} does not have the expected shape")
+    if want:
+        raise TranslatorError(f"config/utils.py: {sorted(want)} not found")
+    conv = {}
+    for n in utils.body:
+        if isinstance(n, ast.FunctionDef) and n.name.startswith("_convert_") and "array" in n.name:
+            body = _strip_docstrings(n).body
+            ok = (len(n.args.args) == 1 and len(body) == 2 and isinstance(body[0], ast.If) and not body[0].orelse
+                  and len(body[0].body) == 1 and isinstance(body[0].body[0], ast.Return)
+                  and isinstance(body[0].body[0].value, ast.Name) and body[0].body[0].value.id == n.args.args[0].arg
+                  and isinstance(body[0].test, ast.Compare) and len(body[0].test.ops) == 1 and isinstance(body[0].test.ops[0], ast.Is)
+                  and isinstance(body[0].test.comparators[0], ast.Constant) and body[0].test.comparators[0].value is None
+                  and isinstance(body[1], ast.Return) and body[1].value is not None)
+            if not ok:
+                raise TranslatorError(f"config/utils.py: {n.name} does not have the shape `if x is None: return x; return <expr>`")
+            conv[n.name] = "SImmutableArray" if _is_call_to(body[1].value, "immutable_array") else "SOther"
+    vt = tr.parse("config/validated_types.py")
+    aliases = []
+    for n in vt.body:
+        if isinstance(n, ast.Assign) and len(n.targets) == 1 and isinstance(n.targets[0], ast.Name) and n.targets[0].id.startswith("Array"):
+            v = n.value
+            ok = (isinstance(v, ast.Subscript) and isinstance(v.value, ast.Name) and v.value.id == "Annotated"
+                  and isinstance(v.slice, ast.Tuple) and len(v.slice.elts) == 2 and _is_call_to(v.slice.elts[1], "BeforeValidator")
+                  and len(v.slice.elts[1].args) == 1 and isinstance(v.slice.elts[1].args[0], ast.Name))
+            if not ok or v.slice.elts[1].args[0].id not in conv:
+                raise TranslatorError(f"validated_types.py: {n.targets[0].id} is not Annotated[..., BeforeValidator(_convert_*array*)]")
+            aliases.append((n.targets[0].id, conv[v.slice.elts[1].args[0].id]))
+    if not aliases:
+        raise TranslatorError("validated_types.py: no Array* types found")
+    alias_names = {a for a, _ in aliases}
+    fields, stores = [], []
+    for f in CONFIG_FILES:
+        tree = tr.parse("config/enopt/" + f)
+        for n in ast.walk(tree):
+            if isinstance(n, ast.Name) and n.id in ("NDArray", "ndarray") and isinstance(n.ctx, ast.Load):
+                # an array field declared without one of the converting types would escape the table
+                for c in tree.body:
+                    if isinstance(c, ast.ClassDef):
+                        for st in c.body:
+                            if isinstance(st, ast.AnnAssign) and any(x is n for x in ast.walk(st.annotation)):
+                                raise TranslatorError(f"{f}: field {ast.unparse(st.target)} is annotated with a bare ndarray type")
+        cls = [n for n in tree.body if isinstance(n, ast.ClassDef)][0]
+        af = [st.target.id for st in cls.body if isinstance(st, ast.AnnAssign) and isinstance(st.target, ast.Name)
+              and any(isinstance(x, ast.Name) and x.id in alias_names for x in ast.walk(st.annotation))]
+        fields.append((cls.name, af))
+        stores += [(cls.name, site, fld, srcs) for site, fld, srcs in _array_stores(cls, set(af))]
+    return aliases, fields, stores
+
+
 def translate(repo):
     import translator as tr
     from translator import TranslatorError
@@ -218,6 +422,20 @@ def translate(repo):
             f"  pt_lo := {min(pt.values())}%Z; pt_hi := {max(pt.values())}%Z;",
             f"  bt_lo := {min(bt.values())}%Z; bt_hi := {max(bt.values())}%Z;",
             f"  pt_abs := {pt['ABSOLUTE']}%Z; pt_rel := {pt['RELATIVE']}%Z |}}.", ""]
+    # 4. arrays: converting types, array fields per class, and every store into an array field with its sources
+    aliases, fields, stores = _array_tables(tr)
+    if not stores:
+        raise TranslatorError("no array stores found in the configuration classes")
+    out += ["(* validated_types.py: array type, what its BeforeValidator converter returns *)",
+            "Definition array_converters : list (string * asrc) := ["
+            + "; ".join(f'("{a}", {s})' for a, s in aliases) + "].", "",
+            "(* per class: the fields declared with one of these array types *)",
+            "Definition array_fields : list (string * list string) := [",
+            ";\n".join(f'  ("{c}", [' + "; ".join(f'"{x}"' for x in af) + "])" for c, af in fields), "].", "",
+            "(* every store into an array field (assignment in a validator, model_copy(update=..), update() before model_construct) *)",
+            "Definition array_stores : list astore := [",
+            ";\n".join(f'  {{| as_class := "{c}"; as_site := "{s}"; as_field := "{f}"; as_sources := [' + "; ".join(src) + "] |}"
+                       for c, s, f, src in stores), "].", ""]
     return {"Gen/Gen_C18.v": "\n".join(out)}
 
 
@@ -226,14 +444,15 @@ def _dy(rng, lo, hi, den=8):
     return rng.randint(lo * den, hi * den) / den
 
 
-def _bounds(rng, n, finite=False):
+def _bounds(rng, n, finite=False, precise=False):
     """lower/upper given as default (None) / scalar / vector, lower <= upper, infinities allowed."""
     form = rng.choice(["default", "scalar", "vector", "vector"]) if not finite else rng.choice(["scalar", "vector"])
     if form == "default":
         return None, None
+    eps = (lambda: rng.random() * 0.25) if precise else (lambda: 0.0)
     if form == "scalar":
-        lo = _dy(rng, -3, 0)
-        up = lo + _dy(rng, 0, 4) + (0.0 if rng.random() < 0.2 else 0.125)
+        lo = _dy(rng, -3, 0) - eps()
+        up = lo + _dy(rng, 0, 4) + (0.0 if rng.random() < 0.2 else 0.125) + eps()
         if not finite and rng.random() < 0.25:
             lo = -INF
         if not finite and rng.random() < 0.25:
@@ -241,8 +460,8 @@ def _bounds(rng, n, finite=False):
         return lo, up
     los, ups = [], []
     for _ in range(n):
-        lo = _dy(rng, -3, 0)
-        up = lo + _dy(rng, 0, 4)
+        lo = _dy(rng, -3, 0) - eps()
+        up = lo + _dy(rng, 0, 4) + eps()
         if not finite and rng.random() < 0.2:
             lo = -INF
         if not finite and rng.random() < 0.2:
@@ -253,26 +472,49 @@ def _bounds(rng, n, finite=False):
 
 
 def _sv(rng, n, gen):
-    """scalar or vector of length n"""
-    if rng.random() < 0.4:
+    """scalar, one-element list or vector of length n"""
+    r = rng.random()
+    if r < 0.3:
         return gen()
+    if r < 0.4:
+        return [gen()]
     return [gen() for _ in range(n)]
 
 
-def _weights(rng, n):
+def _weights(rng, n, precise=False):
+    if precise:
+        w = [rng.choice([0.0, rng.random(), rng.random() * 10, 0.1, 0.7, 1 / 3]) for _ in range(n)]
+        if sum(w) <= 0.01:
+            w[rng.randrange(n)] = 0.3
+        return w
     w = [rng.choice([0, 0, 1, 1, 2, 3, 0.5, 0.25, 1.5]) for _ in range(n)]
     if sum(w) <= 0:
         w[rng.randrange(n)] = 1
+    r = rng.random()
+    if n >= 2 and r < 0.06:          # one negative weight, positive sum: accepted by normalize()
+        i = rng.randrange(n)
+        w[i] = -0.5
+        w[(i + 1) % n] = max(w[(i + 1) % n], 1) + 1
+    elif r < 0.09:                   # the smallest accepted sum
+        w = [0.0] * n
+        w[rng.randrange(n)] = EPS
     return w
 
 
-def valid_case(rng):
-    V = rng.choice([1, 2, 2, 3, 3, 4])
+EPS = 2.0 ** -52
+
+
+def valid_case(rng, V=None, precise=False):
+    if V is None:
+        V = rng.choice([1, 2, 2, 3, 3, 4, 5, 6])
     cfg = {}
-    var = {"initial_values": [_dy(rng, -2, 2) for _ in range(V)]}
+    val = (lambda: rng.uniform(-2, 2)) if precise else (lambda: _dy(rng, -2, 2))
+    var = {"initial_values": [val() for _ in range(V)]}
+    if V == 1 and rng.random() < 0.3:
+        var["initial_values"] = var["initial_values"][0]          # a scalar: one variable
     ptypes = _sv(rng, V, lambda: rng.choice([1, 1, 2]))
-    any_rel = (ptypes == 2) if not isinstance(ptypes, list) else (2 in ptypes)
-    lo, up = _bounds(rng, V, finite=any_rel)
+    any_rel = 2 in _as_list(ptypes)
+    lo, up = _bounds(rng, V, finite=any_rel, precise=precise)
     if lo is not None:
         var["lower_bounds"], var["upper_bounds"] = lo, up
     if rng.random() < 0.4:
@@ -280,8 +522,10 @@ def valid_case(rng):
     if rng.random() < 0.5:
         var["mask"] = _sv(rng, V, lambda: rng.random() < 0.7)
     cfg["variables"] = var
-    nobj = rng.choice([1, 1, 2, 3])
-    obj = {"weights": _weights(rng, nobj)}
+    nobj = rng.choice([1, 1, 2, 3, 4])
+    obj = {"weights": _weights(rng, nobj, precise)}
+    if nobj == 1 and rng.random() < 0.3:
+        obj["weights"] = obj["weights"][0]
     nfilt = rng.choice([0, 0, 1])
     nest = rng.choice([1, 1, 2])
     if nfilt:
@@ -290,16 +534,18 @@ def valid_case(rng):
     if nest == 2 or rng.random() < 0.3:
         cfg["function_estimators"] = [{"method": "mean"}, {"method": "stddev"}][:nest]
         obj["function_estimators"] = [rng.randrange(nest) for _ in range(nobj)]
-    cfg["objectives"] = obj
-    R = rng.choice([1, 2, 3, 4])
-    real = {"weights": _weights(rng, R)}
-    r = rng.random()
-    if r < 0.6:
+    if rng.random() < 0.9 or nfilt or "function_estimators" in obj:
+        cfg["objectives"] = obj
+    R = rng.choice([1, 2, 3, 4, 6])
+    real = {"weights": _weights(rng, R, precise)}
+    if rng.random() < 0.6:
         real["realization_min_success"] = rng.randint(0, R + 2)
-    cfg["realizations"] = real
+    if rng.random() < 0.9:
+        cfg["realizations"] = real
     P = rng.choice([1, 2, 3, 5])
+    mag = (lambda: rng.uniform(0.01, 1.0)) if precise else (lambda: rng.randint(1, 16) / 16)
     grad = {"number_of_perturbations": P, "perturbation_types": ptypes,
-            "perturbation_magnitudes": _sv(rng, V, lambda: rng.randint(1, 16) / 16),
+            "perturbation_magnitudes": _sv(rng, V, mag),
             "boundary_types": _sv(rng, V, lambda: rng.choice([1, 2, 3]))}
     if rng.random() < 0.6:
         grad["perturbation_min_success"] = rng.randint(1, P + 2)
@@ -311,27 +557,41 @@ def valid_case(rng):
     if nsmp == 2 or rng.random() < 0.3:
         cfg["samplers"] = [{"method": "norm"}, {"method": "sobol", "shared": True}][:nsmp]
         grad["samplers"] = [rng.randrange(-1, nsmp) for _ in range(V)]
+    if not any_rel and rng.random() < 0.12:
+        # defaults of the gradient section (magnitude / types from constants.py); P must stay known to the model
+        for k in rng.sample(["perturbation_types", "perturbation_magnitudes", "boundary_types", "number_of_perturbations"], rng.randint(1, 4)):
+            grad.pop(k)
+        if "number_of_perturbations" not in grad:
+            grad.pop("perturbation_min_success", None)
     cfg["gradient"] = grad
-    if rng.random() < 0.45:
-        rows = rng.choice([1, 2, 3])
+    if V > 0 and rng.random() < 0.45:
+        rows = rng.choice([1, 2, 3, 4])
         A = []
         for _ in range(rows):
-            row = [rng.randint(-8, 8) / 4 for _ in range(V)]
+            row = [(rng.uniform(-2, 2) if precise else rng.randint(-8, 8) / 4) for _ in range(V)]
             if all(a == 0 for a in row):
                 row[rng.randrange(V)] = 1.0
             A.append(row)
-        lo, up = _bounds(rng, rows)
+        lo, up = _bounds(rng, rows, precise=precise)
         if lo is None:
             lo, up = -INF, rng.choice([1.0, [1.0] * rows])
+        if rows == 1 and rng.random() < 0.3:
+            A = A[0]                                               # a 1-D coefficient list: one constraint
         cfg["linear_constraints"] = {"coefficients": A, "lower_bounds": lo, "upper_bounds": up}
+    nl_n = 0
     if rng.random() < 0.45:
-        n = rng.choice([1, 2, 3])
-        lo, up = _bounds(rng, n)
+        n = rng.choice([1, 2, 3, 4])
+        lo, up = _bounds(rng, n, precise=precise)
         if lo is None:
             lo, up = rng.choice([0.0, [0.0] * n]), INF
         if not isinstance(lo, list) and not isinstance(up, list) and rng.random() < 0.5:
             up = [up] * n
         nl = {"lower_bounds": lo, "upper_bounds": up}
+        nl_n = max(len(_as_list(lo)), len(_as_list(up)))
+        if nfilt and rng.random() < 0.5:
+            nl["realization_filters"] = [rng.choice([-1, 0]) for _ in range(nl_n)]
+        if rng.random() < 0.3:
+            nl["function_estimators"] = [rng.randrange(nest if "function_estimators" in cfg else 1) for _ in range(nl_n)]
         cfg["nonlinear_constraints"] = nl
     if rng.random() < 0.5:
         opt = {"method": rng.choice(["slsqp", "scipy/slsqp", "scipy/default"])}
@@ -343,29 +603,39 @@ def valid_case(rng):
             opt["tolerance"] = 0.001
         if rng.random() < 0.2:
             opt["output_dir"] = "/tmp/out"
+        if rng.random() < 0.2:
+            opt["parallel"] = True
         cfg["optimizer"] = opt
     scaler = None
-    if rng.random() < 0.4:
+    if V > 0 and rng.random() < 0.4:
         kind = rng.choice(["scales", "offsets", "both"])
-        scaler = {"scales": [rng.choice([0.5, 1.0, 2.0, 4.0]) for _ in range(V)] if kind != "offsets" else None,
-                  "offsets": [rng.randint(-4, 4) / 4 for _ in range(V)] if kind != "scales" else None}
-    return {"cfg": cfg, "scaler": scaler, "kind": "valid"}
+        sc = (lambda: rng.uniform(0.5, 4.0)) if precise else (lambda: rng.choice([0.5, 1.0, 2.0, 4.0]))
+        of = (lambda: rng.uniform(-1, 1)) if precise else (lambda: rng.randint(-4, 4) / 4)
+        scaler = {"scales": [sc() for _ in range(V)] if kind != "offsets" else None,
+                  "offsets": [of() for _ in range(V)] if kind != "scales" else None}
+    nl_scales = None
+    if nl_n and rng.random() < 0.35:
+        nl_scales = [rng.choice([0.5, 1.0, 2.0, 4.0]) for _ in range(nl_n)]
+    return {"cfg": cfg, "scaler": scaler, "nl_scales": nl_scales, "obj_scaler": rng.random() < 0.2,
+            "kind": "valid-precise" if precise else "valid"}
 
 
 def _bad_len(rng, n):
-    return rng.choice([k for k in (0, 2, 3, 4, 5) if k not in (1, n)])
+    return rng.choice([k for k in (0, 2, 3, 4, 5, 7) if k not in (1, n)])
 
 
-CORRUPTIONS = ["var_len", "var_cross", "obj_weights", "real_weights", "lin_cols", "lin_len", "lin_cross", "nonlin_len",
-               "nonlin_cross", "relative_inf", "ptype_enum", "btype_enum", "vtype_enum", "mag_len", "btype_len", "ptype_len",
-               "zero_perturbations", "mask_len"]
+CORRUPTIONS = ["var_len", "var_cross", "obj_weights", "real_weights", "weights_below_eps", "lin_cols", "lin_len", "lin_cross",
+               "lin_ragged", "lin_empty", "nonlin_len", "nonlin_cross", "relative_inf", "ptype_enum", "btype_enum", "vtype_enum",
+               "mag_len", "btype_len", "ptype_len", "types_len", "zero_perturbations", "pmin_zero", "mask_len"]
 
 
 def corrupt(rng, case, what):
     case = copy.deepcopy(case)
     cfg = case["cfg"]
-    V = len(cfg["variables"]["initial_values"])
     var, grad = cfg["variables"], cfg["gradient"]
+    V = len(_as_list(var["initial_values"]))
+    if V == 1 and what in ("var_len", "mag_len", "btype_len", "ptype_len", "types_len", "mask_len", "lin_cols"):
+        pass                                                       # every bad length is still available (0, 2, 3, ..)
     if what == "var_len":
         key = rng.choice(["lower_bounds", "upper_bounds"])
         var[key] = [(-5.0 if key == "lower_bounds" else 9.0)] * _bad_len(rng, V)
@@ -376,30 +646,49 @@ def corrupt(rng, case, what):
         up = [1.0] * V
         i = rng.randrange(V)
         lo[i], up[i] = 2.0, 1.5
+        if rng.random() < 0.3:
+            lo, up = 2.0, up                                       # a scalar lower bound above one upper bound
         var["lower_bounds"], var["upper_bounds"] = lo, up
     elif what == "obj_weights":
-        cfg["objectives"]["weights"] = rng.choice([[0.0] * len(cfg["objectives"]["weights"]), [-2.0] + [0.5] * (len(cfg["objectives"]["weights"]) - 1)])
+        n = len(_as_list(cfg.get("objectives", {}).get("weights", 1.0)))
+        cfg.setdefault("objectives", {})["weights"] = rng.choice([[0.0] * n, [-2.0] + [0.5] * (n - 1), [-1.0] + [1.0 / max(n - 1, 1)] * (n - 1)])
     elif what == "real_weights":
-        n = len(cfg["realizations"]["weights"])
-        cfg["realizations"]["weights"] = rng.choice([[0.0] * n, [-float(n)] + [1.0] * (n - 1)])
-    elif what in ("lin_cols", "lin_len", "lin_cross"):
+        n = len(_as_list(cfg.get("realizations", {}).get("weights", 1.0)))
+        cfg.setdefault("realizations", {})["weights"] = rng.choice([[0.0] * n, [-float(n)] + [1.0] * (n - 1)])
+    elif what == "weights_below_eps":
+        sect = rng.choice(["objectives", "realizations"])
+        n = len(_as_list(cfg.get(sect, {}).get("weights", 1.0)))
+        w = [0.0] * n
+        w[rng.randrange(n)] = rng.choice([EPS / 2, EPS * 0.999, 1e-300])
+        cfg.setdefault(sect, {})["weights"] = w
+    elif what in ("lin_cols", "lin_len", "lin_cross", "lin_ragged", "lin_empty"):
         rows = rng.choice([2, 3])
         A = [[1.0] * V for _ in range(rows)]
         lin = {"coefficients": A, "lower_bounds": [0.0] * rows, "upper_bounds": [1.0] * rows}
         if what == "lin_cols":
-            lin["coefficients"] = [[1.0] * (V + rng.choice([1, 2])) for _ in range(rows)]
+            lin["coefficients"] = [[1.0] * (V + rng.choice([-1, 1, 2])) for _ in range(rows)]
         elif what == "lin_len":
             lin[rng.choice(["lower_bounds", "upper_bounds"])] = [0.5] * _bad_len(rng, rows)
+        elif what == "lin_ragged":
+            lin["coefficients"][rng.randrange(rows)] = [1.0] * (V + 1)
+        elif what == "lin_empty":
+            lin = {"coefficients": [], "lower_bounds": rng.choice([0.0, [0.0]]), "upper_bounds": 1.0}   # one row without columns
         else:
             lin["lower_bounds"][rng.randrange(rows)] = 3.0
+            if rng.random() < 0.3:
+                lin["upper_bounds"] = 1.0
         cfg["linear_constraints"] = lin
     elif what == "nonlin_len":
-        cfg["nonlinear_constraints"] = {"lower_bounds": [0.0, 0.0], "upper_bounds": [1.0, 1.0, 1.0]}
+        cfg["nonlinear_constraints"] = rng.choice([{"lower_bounds": [0.0, 0.0], "upper_bounds": [1.0, 1.0, 1.0]},
+                                                   {"lower_bounds": [0.0] * 4, "upper_bounds": [1.0, 1.0]}])
+        case["nl_scales"] = None
     elif what == "nonlin_cross":
         cfg["nonlinear_constraints"] = {"lower_bounds": [0.0, 2.0], "upper_bounds": rng.choice([1.0, [1.0, 1.5]])}
+        case["nl_scales"] = rng.choice([None, [0.5, 2.0]])
     elif what == "relative_inf":
         i = rng.randrange(V)
-        grad["perturbation_types"] = [2 if j == i else 1 for j in range(V)]
+        grad["perturbation_types"] = [2 if j == i else 1 for j in range(V)] if rng.random() < 0.7 else 2
+        grad.setdefault("perturbation_magnitudes", 0.25)
         lo, up = [-1.0] * V, [1.0] * V
         if rng.random() < 0.5:
             lo[i] = -INF
@@ -418,20 +707,41 @@ def corrupt(rng, case, what):
         grad["boundary_types"] = [2] * _bad_len(rng, V)
     elif what == "ptype_len":
         grad["perturbation_types"] = [1] * _bad_len(rng, V)
+    elif what == "types_len":
+        var["types"] = [1] * _bad_len(rng, V)
     elif what == "zero_perturbations":
         grad["number_of_perturbations"] = 0
+    elif what == "pmin_zero":
+        grad["perturbation_min_success"] = 0
+        grad.setdefault("number_of_perturbations", 3)
     elif what == "mask_len":
         var["mask"] = [True] * _bad_len(rng, V)
     case["kind"] = "malformed:" + what
     return case
 
 
+def empty_case(rng):
+    """No variables at all: every per-variable array becomes empty (broadcast_1d_array returns the empty array for size
+    0 whatever it is given; np.broadcast_to accepts a scalar or an empty vector)."""
+    case = valid_case(rng, V=0)
+    cfg = case["cfg"]
+    if rng.random() < 0.5:
+        cfg["variables"]["lower_bounds"] = [-1.0] * rng.choice([1, 2, 3])
+    case["kind"] = "valid-empty"
+    return case
+
+
 def gen_cases(tier, rng):
-    n_valid, n_bad = (700, 360) if tier == "quick" else (18000, 7200)
+    n_valid, n_precise, n_empty, n_bad = (1500, 120, 40, 30) if tier == "quick" else (26000, 2500, 300, 420)
     for _ in range(n_valid):
         yield valid_case(rng)
-    for i in range(n_bad):
-        yield corrupt(rng, valid_case(rng), CORRUPTIONS[i % len(CORRUPTIONS)])
+    for _ in range(n_precise):
+        yield valid_case(rng, precise=True)
+    for _ in range(n_empty):
+        yield empty_case(rng)
+    for what in CORRUPTIONS:
+        for _ in range(n_bad):
+            yield corrupt(rng, valid_case(rng), what)
 
 
 # ---- running the real code ------------------------------------------------------------------------
@@ -557,10 +867,46 @@ def run_impl(case):
     from pydantic import ValidationError
     from ropt.config.enopt import EnOptConfig
     from ropt.transforms import OptModelTransforms, VariableScaler
+    from ropt.transforms.base import NonLinearConstraintTransform, ObjectiveTransform
+
+    class ConstraintScaler(NonLinearConstraintTransform):
+        """The non-linear constraint transform of the validation context: divides by positive scales."""
+
+        def __init__(self, scales):
+            self._scales = np.array(scales, dtype=np.float64)
+
+        def bounds_to_optimizer(self, lower_bounds, upper_bounds):
+            return lower_bounds / self._scales, upper_bounds / self._scales
+
+        def to_optimizer(self, constraints):
+            return constraints / self._scales
+
+        def from_optimizer(self, constraints):
+            return constraints * self._scales
+
+        def nonlinear_constraint_diffs_from_optimizer(self, lower_diffs, upper_diffs):
+            return lower_diffs * self._scales, upper_diffs * self._scales
+
+    class ObjectiveScaler(ObjectiveTransform):
+        """An objective transform: must not influence the validation of the configuration at all."""
+
+        def to_optimizer(self, objectives):
+            return objectives / 2.0
+
+        def from_optimizer(self, objectives):
+            return objectives * 2.0
+
+        def weighted_objective_from_optimizer(self, weighted_objective):
+            return weighted_objective * 2.0
+
     tr = None
-    if case["scaler"] is not None:
-        s, o = case["scaler"]["scales"], case["scaler"]["offsets"]
-        tr = OptModelTransforms(variables=VariableScaler(None if s is None else np.array(s), None if o is None else np.array(o)))
+    if case["scaler"] is not None or case.get("nl_scales") is not None or case.get("obj_scaler"):
+        vs = None
+        if case["scaler"] is not None:
+            s, o = case["scaler"]["scales"], case["scaler"]["offsets"]
+            vs = VariableScaler(None if s is None else np.array(s), None if o is None else np.array(o))
+        tr = OptModelTransforms(variables=vs, objectives=ObjectiveScaler() if case.get("obj_scaler") else None,
+                                nonlinear_constraints=None if case.get("nl_scales") is None else ConstraintScaler(case["nl_scales"]))
     cfg = copy.deepcopy(case["cfg"])
     try:
         c = EnOptConfig.model_validate(cfg, context=tr)
@@ -605,6 +951,16 @@ def _onat(x):
     return "None" if x is None else f"(Some {cq.nat(x)})"
 
 
+def _coeffs(lin):
+    """coefficients after np.array(.., ndmin=2): a flat list is one row, the empty list one row without columns"""
+    A = lin["coefficients"]
+    if not isinstance(A, (list, tuple)):
+        return [[A]]
+    if all(not isinstance(r, (list, tuple)) for r in A):
+        return [list(A)]
+    return [list(r) if isinstance(r, (list, tuple)) else [r] for r in A]
+
+
 def _raw_term(cfg):
     var = cfg["variables"]
     vars_t = (f"(mk_vars {cq.qs(_as_list(var.get('initial_values', 0.0)))} {cq.ers(_as_list(var.get('lower_bounds', -INF)))} "
@@ -616,7 +972,7 @@ def _raw_term(cfg):
     P = cq.nat(g["number_of_perturbations"]) if "number_of_perturbations" in g else "default_number_of_perturbations"
     grad_t = f"(mk_grad {P} {_onat(g.get('perturbation_min_success'))} {mags} {pty} {bty})"
     lin = cfg.get("linear_constraints")
-    lin_t = "None" if lin is None else (f"(Some (mk_lin {cq.qmat(lin['coefficients'])} {cq.ers(_as_list(lin['lower_bounds']))} "
+    lin_t = "None" if lin is None else (f"(Some (mk_lin {cq.qmat(_coeffs(lin))} {cq.ers(_as_list(lin['lower_bounds']))} "
                                         f"{cq.ers(_as_list(lin['upper_bounds']))}))")
     nl = cfg.get("nonlinear_constraints")
     nl_t = "None" if nl is None else f"(Some (mk_nonlin {cq.ers(_as_list(nl['lower_bounds']))} {cq.ers(_as_list(nl['upper_bounds']))}))"
@@ -649,15 +1005,37 @@ def coq_case(case, obs):
     cfg = case["cfg"]
     sc = case["scaler"]
     ctx = "None" if sc is None else (f"(Some (mk_scaler {cq.opt(sc['scales'], cq.qs)} {cq.opt(sc['offsets'], cq.qs)}))")
+    ctx += " " + cq.opt(case.get("nl_scales"), cq.qs)
     S = max(1.0, _magnitude({k: cfg.get(k) for k in ("variables", "linear_constraints", "nonlinear_constraints")}),
             _magnitude(sc or {}))
     S = S * S * 4      # bounds are shifted by offsets and A.offsets and divided by scales >= 1/2
     if obs["outcome"] != "ok":
-        return f"(Build_case {cq.q(S)} {ctx} {_raw_term(cfg)} None false None None [] (0%nat, 0%nat))"
+        return f"(Build_case {cq.q(S)} false {ctx} {_raw_term(cfg)} None false None None [] (0%nat, 0%nat))"
+    if not all(_representable(obs[k]) for k in ("fields", "dump", "json")):
+        # NaN / infinite magnitudes, weights, coefficients or initial values cannot be written as rationals: the case fails
+        return f"(Build_case {cq.q(S)} true {ctx} {_raw_term(cfg)} None false None None [] (0%nat, 0%nat))"
     classes = cq.lst(f"({cq.s(n)}, ({cq.nat(min(p, 5000))}, {cq.nat(min(a, 5000))}))" for n, (p, a) in sorted(obs["classes"].items()))
-    return (f"(Build_case {cq.q(S)} {ctx} {_raw_term(cfg)} {_obs_term(obs['fields'])} {cq.b(obs['same'])} "
+    return (f"(Build_case {cq.q(S)} false {ctx} {_raw_term(cfg)} {_obs_term(obs['fields'])} {cq.b(obs['same'])} "
             f"{_obs_term(obs['dump'])} {_obs_term(obs['json'])} {classes} "
             f"({cq.nat(min(obs['arrays'][0], 5000))}, {cq.nat(min(obs['arrays'][1], 5000))}))")
+
+
+def _representable(f):
+    """Every field that is a rational in the model is finite, every bound is not NaN."""
+    if f is None:
+        return True
+
+    def fin(xs):
+        return all(math.isfinite(x) for x in xs)
+
+    def nonan(xs):
+        return not any(math.isnan(x) for x in xs)
+    ok = fin(f["initial"]) and fin(f["obj_w"]) and fin(f["real_w"]) and fin(f["mags"]) and nonan(f["lower"]) and nonan(f["upper"])
+    if f["lin"] is not None:
+        ok = ok and all(fin(r) for r in f["lin"]["coeffs"]) and nonan(f["lin"]["lower"]) and nonan(f["lin"]["upper"])
+    if f["nonlin"] is not None:
+        ok = ok and nonan(f["nonlin"]["lower"]) and nonan(f["nonlin"]["upper"])
+    return ok
 
 
 # ---- the property predicate on the implementation's output (no model) ------------------------------------
@@ -676,7 +1054,8 @@ def _expect_reject(case):
     def bad_len(x, n):
         return x is not None and len(_as_list(x)) not in (1, n)
     for k in ("lower_bounds", "upper_bounds", "types", "mask"):
-        if bad_len(var.get(k), V):
+        # without variables broadcast_1d_array returns the empty array for every input (degenerate, accepted by design)
+        if V > 0 and bad_len(var.get(k), V):
             reasons.append("variables." + k + " length")
     g = cfg.get("gradient", {})
     for k in ("perturbation_magnitudes", "perturbation_types", "boundary_types"):
@@ -698,8 +1077,9 @@ def _expect_reject(case):
             reasons.append(sect + " weights sum <= 0")
     lin = cfg.get("linear_constraints")
     if lin is not None:
-        rows = len(lin["coefficients"])
-        if any(len(r) != V for r in lin["coefficients"]):
+        A = _coeffs(lin)
+        rows = len(A)
+        if any(len(r) != V for r in A):
             reasons.append("coefficient columns")
         if bad_len(lin["lower_bounds"], rows) or bad_len(lin["upper_bounds"], rows):
             reasons.append("linear bounds length")
@@ -721,7 +1101,7 @@ def oracle(case, obs):
     cfg = case["cfg"]
     reasons = _expect_reject(case)
     if obs["outcome"] != "ok":
-        if not reasons and case["kind"] == "valid":
+        if not reasons and case["kind"].startswith("valid"):
             return {"clause": "valid-configuration-rejected", "detail": obs.get("errors")}
         return None
     if reasons:
@@ -747,16 +1127,39 @@ def oracle(case, obs):
         if f[name] is not None and len(f[name]) != V:
             return {"clause": "broadcast-full-length", "detail": {name: f[name], "V": V}}
     var = cfg["variables"]
+
+    def _bcast1d(x, n):          # broadcast_1d_array: the empty array when there are no variables
+        return [] if n == 0 else _bcast(x, n)
     for name, key in (("types", "types"), ("mask", "mask")):
-        if var.get(key) is not None and f[name] != _bcast(var[key], V):
+        if var.get(key) is not None and f[name] != _bcast1d(var[key], V):
             return {"clause": "broadcast-values", "detail": {name: f[name], "raw": var[key]}}
     g = cfg.get("gradient", {})
     if "boundary_types" in g and f["btypes"] != _bcast(g["boundary_types"], V):
         return {"clause": "broadcast-values", "detail": {"btypes": f["btypes"], "raw": g["boundary_types"]}}
     if case["scaler"] is None:
         for name, key, dflt in (("lower", "lower_bounds", -INF), ("upper", "upper_bounds", INF)):
-            if f[name] != [float(x) for x in _bcast(var.get(key, dflt), V)]:
+            if f[name] != [float(x) for x in _bcast1d(var.get(key, dflt), V)]:
                 return {"clause": "broadcast-values", "detail": {name: f[name], "raw": var.get(key, dflt)}}
+    # the transforms of the validation context are applied to what they concern, and to nothing else
+    sc = case["scaler"]
+    if V > 0:
+        scales = [1.0] * V if sc is None or sc["scales"] is None else sc["scales"]
+        offs = [0.0] * V if sc is None or sc["offsets"] is None else sc["offsets"]
+
+        def near(x, y):
+            return x == y or (math.isfinite(x) and math.isfinite(y) and abs(x - y) <= 1e-9 * max(1.0, abs(x), abs(y)))
+        for name, key, dflt in (("initial", "initial_values", 0.0), ("lower", "lower_bounds", -INF), ("upper", "upper_bounds", INF)):
+            want = [(float(x) - o) / s for x, o, s in zip(_bcast(var.get(key, dflt), V), offs, scales)]
+            if len(f[name]) != V or not all(near(x, y) for x, y in zip(f[name], want)):
+                return {"clause": "context-transform-applied", "detail": {name: f[name], "expected": want}}
+    if f["nonlin"] is not None:
+        nlc = cfg["nonlinear_constraints"]
+        n = len(f["nonlin"]["lower"])
+        nls = case.get("nl_scales") or [1.0] * n
+        for name, key in (("lower", "lower_bounds"), ("upper", "upper_bounds")):
+            want = [float(x) / s for x, s in zip(_bcast(nlc[key], n), nls)]
+            if len(want) != n or any(x != y and not (math.isfinite(x) and abs(x - y) <= 1e-9 * max(1.0, abs(y))) for x, y in zip(f["nonlin"][name], want)):
+                return {"clause": "context-transform-applied", "detail": {"nonlinear " + name: f["nonlin"][name], "expected": want}}
     if f["lin"] is not None:
         rows = len(f["lin"]["coeffs"])
         if len(f["lin"]["lower"]) != rows or len(f["lin"]["upper"]) != rows:
@@ -789,7 +1192,7 @@ def known_signature(case, obs, violation):
 
 def nontrivial(case, obs):
     if obs["outcome"] != "ok":
-        return case["kind"] != "valid"
+        return not case["kind"].startswith("valid")
     cfg = case["cfg"]
     return len(obs["fields"]["initial"]) >= 2 or "linear_constraints" in cfg or "nonlinear_constraints" in cfg
 
@@ -800,6 +1203,8 @@ def features(case, obs):
     pt = _as_list(g.get("perturbation_types", 1))
     return {"kind": case["kind"], "outcome": obs["outcome"], "V": len(_as_list(cfg["variables"].get("initial_values", 0.0))),
             "scaler": "none" if case["scaler"] is None else "+".join(k for k in ("scales", "offsets") if case["scaler"][k] is not None),
+            "nl_scaler": case.get("nl_scales") is not None, "obj_scaler": bool(case.get("obj_scaler")),
+            "btypes": "".join(str(b) for b in sorted(set(_as_list(g.get("boundary_types", "d"))))),
             "relative": 2 in pt, "linear": "linear_constraints" in cfg, "nonlinear": "nonlinear_constraints" in cfg,
             "mask": "mask" in cfg["variables"], "types": "types" in cfg["variables"]}
 
@@ -819,6 +1224,10 @@ def shrink(case):
             yield c
     if case["scaler"] is not None:
         yield {**copy.deepcopy(case), "scaler": None}
+    if case.get("nl_scales") is not None:
+        yield {**copy.deepcopy(case), "nl_scales": None}
+    if case.get("obj_scaler"):
+        yield {**copy.deepcopy(case), "obj_scaler": False}
     for sect, key in (("variables", "types"), ("variables", "mask"), ("gradient", "seed"), ("gradient", "merge_realizations"),
                       ("realizations", "realization_min_success"), ("gradient", "perturbation_min_success")):
         if key in cfg.get(sect, {}):
